@@ -522,6 +522,31 @@ func ruleSGReg(c *Ctx) {
 		}
 		if reads && len(cs.Common.Args) == 1 && cs.Common.Args[0] == ssa.Value(fn.Params[0]) {
 			look = cs.Value()
+			// the helper answers from the map for every type: each of its returns is the lookup's own (value, found)
+			h := cs.Static
+			var hl *ssa.Lookup
+			for _, b := range h.Blocks {
+				for _, in := range b.Instrs {
+					if l, ok := in.(*ssa.Lookup); ok && l.CommaOk {
+						hl = l
+					}
+				}
+			}
+			okRet := hl != nil && len(h.Params) == 1 && hl.Index == ssa.Value(h.Params[0])
+			for _, b := range h.Blocks {
+				if b == h.Recover {
+					continue
+				}
+				if ret, ok := b.Instrs[len(b.Instrs)-1].(*ssa.Return); ok && okRet {
+					rs := resolvedResults(ret)
+					e0, ok0 := rs[0].(*ssa.Extract)
+					e1, ok1 := rs[len(rs)-1].(*ssa.Extract)
+					if !ok0 || !ok1 || e0.Tuple != ssa.Value(hl) || e1.Tuple != ssa.Value(hl) || e0.Index != 0 || e1.Index != 1 {
+						okRet = false
+					}
+				}
+			}
+			c.Check(okRet, fnKey(h)+"/answers-from-the-map", P.pos(h.Pos()), "every return is the map lookup's own (schema, found) for the type asked about", "the schema-registry helper can answer without (or differently from) the map lookup for some types: a schema registered for such a type is ignored")
 		}
 	}
 	key := fnKey(fn)
